@@ -47,9 +47,13 @@ func channelMake(L *LState) int {
 }
 
 func channelSelect(L *LState) int {
-	//TODO check case table size
-	cases := make([]reflect.SelectCase, L.GetTop())
 	top := L.GetTop()
+	if top == 0 {
+		// reflect.Select without cases blocks for ever (and ends the process with "all
+		// goroutines are asleep" when nothing else runs)
+		L.RaiseError("bad argument #1 to select (at least one case expected)")
+	}
+	cases := make([]reflect.SelectCase, top)
 	for i := 0; i < top; i++ {
 		cas := reflect.SelectCase{
 			Dir:  reflect.SelectSend,
